@@ -4,6 +4,7 @@ mod alloc;
 mod interp;
 mod proc14;
 mod proc20;
+mod proc09;
 mod props_sock;
 mod props_sock2;
 mod pure;
@@ -19,6 +20,9 @@ static GLOBAL: alloc::Counting = alloc::Counting;
 fn main() {
     if std::env::args().nth(1).as_deref() == Some("c14-child") {
         proc14::child_main();
+    }
+    if std::env::args().nth(1).as_deref() == Some("c09-eintr-child") {
+        proc09::child_main();
     }
     if std::env::args().nth(1).as_deref() == Some("c20-child") {
         proc20::child_main();
@@ -50,6 +54,21 @@ fn main() {
                 "cases run in child server processes (one per worker) with a counting allocator and a panic hook: Content-Length up to 10^30 / chunk-size lines of 1-40 hex digits with far fewer bytes sent, 1-20000 headers, single lines of 1 B - 1 MiB (4 MiB thorough) in request line / header name / header value, TE lists with up to 64 elements and q in {NaN, inf, -inf, 1e39, -0, ...}, random byte mutations (NUL, CR, LF, >= 0x80, ...) and truncations of valid requests incl. pipelines/upgrade/expect, reset storms on TCP (request then RST before accept); handler {answer/drop without reading, read some, read all}; oracle: the child survives, no thread panics, the largest single allocation on library threads and inside library calls <= 64 KiB + 64 x bytes the client had sent, a fresh connection is still served; non-trivial: declared length beyond what was sent, >= 64 KiB sent, or a reset storm",
                 vec!["allocation bound: 64 KiB + 64 x bytes sent (a parsed header costs about 50 bytes of bookkeeping for as little as 5 bytes on the wire, and vectors double)", "a child killed by the harness watchdog is inconclusive, a child that dies by itself (abort, signal) is a violation"],
             )
+        }
+        "C09" => {
+            let mut parts2: Vec<Part> = vec![];
+            let mut rule = String::new();
+            if let Some((p, r, _)) = props_sock::parts(&cli) {
+                parts2 = p;
+                rule = r.to_string();
+            }
+            let mut p = make_part("proc-signals", "PROC", cli.cases(6, 120), proc09::eintr_strategy, |_| (), |_, c| proc09::eintr_test(c));
+            p.max_workers = Some(3);
+            p.max_shrink_iters = 3;
+            parts2.push(p);
+            rule.push_str("; part proc-signals: a child process with a SIGUSR1 handler installed without SA_RESTART signals all its threads but the client every 0.4 ms while a request with a buffered (600), streamed (3000) or chunked body trickles in, is read to its end or answered unread, and is followed by another request: both requests are delivered and answered 200, the body comes out complete");
+            drive(&cli, parts2, &rule, &["socket engine: kernel timing is not controlled; a watchdog expiry is reported as inconclusive (exit 2), never as a violation", "inputs follow the grammar of DESIGN.md 3.1 (CRLF line ends, token header names, visible-ASCII values and targets)"]);
+            return;
         }
         "C02" => {
             // the conversation part comes from props_sock; here: the peer-address clause under resets
